@@ -523,7 +523,15 @@ pub fn run(ctx: &mut Ctx) {
         }
         let mut next: Vec<Vec<Event>> = Vec::with_capacity(level.len() * evs.len());
         for h in &level {
+            // beyond length 3 only the open / single-change events extend a history (20 events):
+            // 60^4 histories would not finish; the two-change events are covered up to length 3
+            if len >= 4 && h.iter().any(|e| e.kind == Kind::Change2) {
+                continue;
+            }
             for e in &evs {
+                if len >= 4 && e.kind == Kind::Change2 {
+                    continue;
+                }
                 let mut n = h.clone();
                 n.push(e.clone());
                 next.push(n);
